@@ -81,12 +81,12 @@ def handleCore : Handler := fun st op args =>
       | _, none => "errB"
       | some a, some b =>
         let same := Spec.abs a == Spec.abs b
-        s!"eq={if a.equal b then 1 else 0} ha={a.hashOf.toNat} hb={b.hashOf.toNat} same={if same then 1 else 0}")
+        s!"eq={if a.equal b then 1 else 0} hsame={if a.hashOf == b.hashOf then 1 else 0} same={if same then 1 else 0}")
   | "rebuild", [ptok] =>
     some (st, withPos ptok fun p =>
       let board := (Spec.abs p).squares.map (fun sq => sq.map Piece.code)
       match Pos.fromSquares st.basis p.cfg board p.move with
-      | .ok q => s!"eq={if p.equal q then 1 else 0} h={p.hashOf.toNat} hq={q.hashOf.toNat}"
+      | .ok q => s!"eq={if p.equal q then 1 else 0} hsame={if p.hashOf == q.hashOf then 1 else 0}"
       | .error e => fmtErr e)
   | _, _ => none
 
